@@ -652,7 +652,7 @@ impl Aml for AddressSpace<u16> {
         sink.word(self.min); /* Min */
         sink.word(self.max); /* Max */
         sink.word(self.translation.unwrap_or(0));
-        let len = self.max - self.min + 1;
+        let len = self.max.checked_sub(self.min).and_then(|d| d.checked_add(1)).unwrap();
         sink.word(len); /* Length */
     }
 }
@@ -669,7 +669,7 @@ impl Aml for AddressSpace<u32> {
         sink.dword(self.min); /* Min */
         sink.dword(self.max); /* Max */
         sink.dword(self.translation.unwrap_or(0)); /* Translation */
-        let len = self.max - self.min + 1;
+        let len = self.max.checked_sub(self.min).and_then(|d| d.checked_add(1)).unwrap();
         sink.dword(len); /* Length */
     }
 }
@@ -686,7 +686,7 @@ impl Aml for AddressSpace<u64> {
         sink.qword(self.min); /* Min */
         sink.qword(self.max); /* Max */
         sink.qword(self.translation.unwrap_or(0)); /* Translation */
-        let len = self.max - self.min + 1;
+        let len = self.max.checked_sub(self.min).and_then(|d| d.checked_add(1)).unwrap();
         sink.qword(len); /* Length */
     }
 }
